@@ -195,12 +195,47 @@ func c06InChild(payload string, firstWord bool) string {
 // ---------------------------------------------------------------- generator
 
 type c06Gen struct {
-	g    *Gen
-	lazy *EvLazy
+	g     *Gen
+	lazy  *EvLazy
+	focus map[string]bool // nil: everything
+}
+
+// c06Focus reads C06_FOCUS: a comma separated list of case families (labels: directed, binop, prefix, read,
+// write, read2, write2, write3, dot, dotw, builtin, builtin:<name>, sinkattr, event, random, corpus).
+// When it is set only these families are generated (the check uses it, together with the thorough tier,
+// to look harder at the code whose panic-site census changed).
+func c06Focus() map[string]bool {
+	v := os.Getenv("C06_FOCUS")
+	if v == "" {
+		return nil
+	}
+	m := map[string]bool{}
+	for _, f := range strings.Split(v, ",") {
+		if f = strings.TrimSpace(f); f != "" {
+			m[f] = true
+		}
+	}
+	return m
+}
+
+func (c *c06Gen) want(label, meta string) bool {
+	if c.focus == nil || label == "cyclic" {
+		return true
+	}
+	if c.focus[label] {
+		return true
+	}
+	if label == "builtin" {
+		return c.focus["builtin:"+strings.SplitN(meta, ":", 2)[0]]
+	}
+	return false
 }
 
 // emit one program in the three modes
 func (c *c06Gen) prog(label, meta, src string, modes string) {
+	if !c.want(label, meta) {
+		return
+	}
 	for _, m := range modes {
 		m := string(m)
 		c.g.Count(label + "." + m)
@@ -275,7 +310,7 @@ func c06MayCycle(src string) bool {
 
 func c06GenCases(g *Gen) {
 	evSetup()
-	c := &c06Gen{g, NewEvLazy(g)}
+	c := &c06Gen{g, NewEvLazy(g), c06Focus()}
 	U := c06Universe
 	modes := "pts"
 
@@ -293,6 +328,9 @@ func c06GenCases(g *Gen) {
 	// 2. sink attributes of every kind, events against statematch of every kind (real worker)
 	for _, a := range c06Attrs {
 		for i := range U {
+			if !c.want("sinkattr", "-") {
+				continue
+			}
 			a, i := a, i
 			g.Count("sinkattr")
 			c.lazy.Emit(func() string { return fmt.Sprintf("A %s %d", a, i) })
@@ -300,6 +338,9 @@ func c06GenCases(g *Gen) {
 	}
 	for i := range U {
 		for j := range U {
+			if !c.want("event", "-") {
+				continue
+			}
 			i, j := i, j
 			g.Count("event")
 			c.lazy.Emit(func() string { return fmt.Sprintf("E %d %d", i, j) })
